@@ -228,18 +228,43 @@ def _option_false_guard(fi, stmt, call):
 
 
 def _loop_bound_masked(fi, stmt, call):
-    """builtin min/max used as range() bound of a loop whose body compares the loop variable with the same value."""
-    if not (isinstance(stmt, ast.For) and isinstance(stmt.iter, ast.Call) and call_name(stmt.iter) == "range"):
+    """builtin min/max used (directly or through locals) as range() bound of a loop whose body compares the loop variable with
+    the same value, i.e. every use inside the loop is masked per point."""
+    if not (call.args and isinstance(call.args[0], ast.Name)):
         return False
-    if not any(call is x for a in stmt.iter.args for x in ast.walk(a)):
-        return False
-    if not (isinstance(stmt.target, ast.Name) and call.args and isinstance(call.args[0], ast.Name)):
-        return False
-    j, q = stmt.target.id, call.args[0].id
-    for n in ast.walk(stmt):
-        if isinstance(n, ast.Compare) and {norm_text(n.left), norm_text(n.comparators[0])} == {j, q}:
-            return True
-    return False
+    q = call.args[0].id
+    loops = []
+    if isinstance(stmt, ast.For):
+        if any(call is x for a in getattr(stmt.iter, "args", []) for x in ast.walk(a)):
+            loops.append(stmt)
+    elif isinstance(stmt, ast.Assign) and len(stmt.targets) == 1 and isinstance(stmt.targets[0], ast.Name):
+        carried = {stmt.targets[0].id}
+        uses = []
+        for s_ in walk_function(fi.node):
+            if s_ is stmt:
+                continue
+            used_here = {n_.id for n_ in ast.walk(s_) if isinstance(n_, ast.Name) and isinstance(n_.ctx, ast.Load)} & carried \
+                if not isinstance(s_, (ast.For, ast.While, ast.If, ast.With, ast.Try, ast.FunctionDef)) else set()
+            if isinstance(s_, ast.For) and isinstance(s_.iter, ast.Call) and call_name(s_.iter) == "range" and \
+                    {n_.id for a_ in s_.iter.args for n_ in ast.walk(a_) if isinstance(n_, ast.Name)} & carried:
+                loops.append(s_)
+            elif isinstance(s_, (ast.If, ast.IfExp)):
+                pass
+            elif used_here:
+                uses.append(s_)
+        # every other use of the bound must itself be a comparison with the loop bound (e.g. `f(first_j) if first_j < n else None`)
+        for u in uses:
+            ok_use = all(isinstance(getattr(n_, "_parent", None), (ast.Compare, ast.Call, ast.IfExp)) or
+                         not (isinstance(n_, ast.Name) and n_.id in carried) for n_ in ast.walk(u))
+            if not ok_use:
+                return False
+    for lp in loops:
+        if not isinstance(lp.target, ast.Name) or call_name(lp.iter) != "range":
+            return False
+        j = lp.target.id
+        if not any(isinstance(n, ast.Compare) and {norm_text(n.left), norm_text(n.comparators[0])} == {j, q} for n in ast.walk(lp)):
+            return False
+    return bool(loops)
 
 
 def run(ctx):
